@@ -350,6 +350,7 @@ def run(ck):
 
     nA = 40 if ck.tier == "quick" else 400
     instances = {k.name: [] for k in M.KINDS}   # canonical strings per kind, for part B
+    chains_m, chains_c = [], []                 # (family, secrets, model strings) for the wrapper / directory parts
     idx = 0
     for i in range(nA):
         idx += 1
@@ -358,11 +359,15 @@ def run(ck):
         if ck.out_of_time():
             break
         for fam in MUTABLE_FAMILIES:
-            w_s, r_s, v_s = chain_mutable(fam, rsecret(rng, 16), rsecret(rng, 32))
+            wk_, fp_ = rsecret(rng, 16), rsecret(rng, 32)
+            w_s, r_s, v_s = chain_mutable(fam, wk_, fp_)
+            chains_m.append((fam, wk_, w_s, r_s, v_s, M.ssk_si(M.ssk_readkey(wk_))))
             for name, s in zip(fam, (w_s, r_s, v_s)):
                 instances[name].append(s)
         for fam in CHK_FAMILIES:
-            c_s, v_s = chain_chk(fam, rsecret(rng, 16), rsecret(rng, 32), M.rand_int(rng), M.rand_int(rng), M.rand_int(rng))
+            key_ = rsecret(rng, 16)
+            c_s, v_s = chain_chk(fam, key_, rsecret(rng, 32), M.rand_int(rng), M.rand_int(rng), M.rand_int(rng))
+            chains_c.append((fam, key_, c_s, v_s, M.chk_si(key_)))
             instances[fam[0]].append(c_s)
             instances[fam[1]].append(v_s)
         for name in LIT_KINDS:
@@ -653,6 +658,17 @@ def run(ck):
                         nme = "%s|%s|%s" % (kind.name, prefix.decode(), slot)
                         children[nme] = (child, {})
                         secrets[nme] = (kind, prefix, s)
+            childkeys = {}
+            for nme, (kind, prefix, s) in secrets.items():
+                if kind.level == "w":
+                    childkeys[nme] = M.b32dec_lenient(s[len(kind.prefix):].split(b":")[0])
+            # children handed out by a client with an access.blacklist (ProhibitedNode wrappers)
+            for (fam, wk_c, w_c, r_c, v_c, si_c) in chains_m[4 * (rep % 3):4 * (rep % 3) + 4]:
+                child = nm_black.create_from_cap(w_c)
+                if type(child).__name__ == "ProhibitedNode":
+                    ck.hit("prohibited-child-packed")
+                    children["prohibited|" + fam[0]] = (child, {})
+                    childkeys["prohibited|" + fam[0]] = wk_c
             for v_i, rw in enumerate(unknown_variants(b"d%d" % rep)):
                 for ro in unknown_variants(b"e%d" % rep)[:5]:
                     child = UnknownNode(rw, ro, name="c")
@@ -676,6 +692,11 @@ def run(ck):
                                          % (nme, dfam[1], show(wu)), wit)
                         if leaks(dwk, child.get_readonly_uri() or b""):
                             ck.violation("derived-cap-leaks-secret", "child uri carries the directory writekey", wit)
+                        ckey = childkeys.get(nme)
+                        if ckey and any(leaks(ckey, t) for t in (child.get_uri(), child.get_readonly_uri()) if t):
+                            ck.violation("derived-cap-leaks-secret",
+                                         "child %s read through the read-only directory carries the child's writekey (%r)"
+                                         % (nme, show(child.get_uri())), wit)
                     else:
                         if wu is not None and wu != write_uri_of(orig):
                             ck.violation("readonly-dir-yields-writeable-child", "writeable re-read invents write uri %r" % (show(wu),), wit)
@@ -702,6 +723,262 @@ def run(ck):
                                  % (nme, type(child).__name__), wit)
                 ck.case("dir-child", key=("D", "imm", nme, rep, dfam[0]))
 
+
+    # ------------------------------------------------------------------ (E) node wrappers (access.blacklist)
+    def wrapper_mutable(rec):
+        fam, wk, w_s, r_s, v_s, si = rec
+        rk = M.ssk_readkey(wk)
+        wit = {"family": fam[0], "writecap": show(w_s), "model_readcap": show(r_s), "model_verifycap": show(v_s)}
+        n = nm_black.create_from_cap(w_s)
+        keep.append(n)
+        if type(n).__name__ != "ProhibitedNode":
+            ck.observe("blacklist-did-not-wrap")
+            return
+        ck.hit("prohibited-node")
+        views = [("ProhibitedNode(write node)", n, False),
+                 ("ProhibitedNode(node from read cap)", nm_black.create_from_cap(r_s), True),
+                 ("ProhibitedNode(node from ro.+read cap in ro slot)", nm_black.create_from_cap(None, b"ro." + r_s), True)]
+        for label, x, is_ro in views:
+            ck.mon("wrapper-chain")
+            keep.append(x)
+            obs = {"get_readonly_uri": x.get_readonly_uri(), "get_readcap": S(x.get_readcap()),
+                   "get_verify_cap": S(x.get_verify_cap()), "get_storage_index": x.get_storage_index()}
+            want = {"get_readonly_uri": r_s, "get_readcap": r_s, "get_verify_cap": v_s, "get_storage_index": si}
+            for k_ in want:
+                if obs[k_] != want[k_]:
+                    ck.violation(chain_key(obs[k_]), "%s.%s() = %r; hash chain says %r"
+                                 % (label, k_, show(obs[k_]), show(want[k_])), wit)
+            ck.mon("secret-search")
+            for k_ in ("get_readonly_uri", "get_readcap", "get_verify_cap"):
+                t = obs[k_]
+                if isinstance(t, bytes) and (leaks(wk, t) or (k_ == "get_verify_cap" and leaks(rk, t))):
+                    ck.violation("derived-cap-leaks-secret", "%s.%s() carries the %s: %r"
+                                 % (label, k_, "writekey" if leaks(wk, t) else "readkey", show(t)), wit)
+            if is_ro:
+                ck.mon("authority-flags")
+                if x.get_write_uri() is not None or not x.is_readonly() or x.get_uri() != r_s or S(x.get_cap()) != r_s:
+                    ck.violation("derived-node-claims-write-authority",
+                                 "%s: write_uri=%r readonly=%r uri=%r" % (label, show(x.get_write_uri()), x.is_readonly(),
+                                                                         show(x.get_uri())), wit)
+            usable(x.get_verify_cap(), n.get_verify_cap(), label + ".get_verify_cap()", wit)
+            ck.case("wrapper-" + fam[0], key=("E", label, w_s))
+
+    def wrapper_chk(rec):
+        fam, key, c_s, v_s, si = rec
+        wit = {"family": fam[0], "readcap": show(c_s), "model_verifycap": show(v_s)}
+        x = nm_black.create_from_cap(c_s)
+        if type(x).__name__ != "ProhibitedNode":
+            ck.observe("blacklist-did-not-wrap")
+            return
+        ck.hit("prohibited-node")
+        ck.mon("wrapper-chain")
+        obs = {"get_readonly_uri": x.get_readonly_uri(), "get_readcap": S(x.get_readcap()),
+               "get_verify_cap": S(x.get_verify_cap()), "get_storage_index": x.get_storage_index()}
+        want = {"get_readonly_uri": c_s, "get_readcap": c_s, "get_verify_cap": v_s, "get_storage_index": si}
+        for k_ in want:
+            if obs[k_] != want[k_]:
+                ck.violation(chain_key(obs[k_]), "ProhibitedNode(%s).%s() = %r; hash chain says %r"
+                             % (fam[0], k_, show(obs[k_]), show(want[k_])), wit)
+        if isinstance(obs["get_verify_cap"], bytes) and leaks(key, obs["get_verify_cap"]):
+            ck.violation("derived-cap-leaks-secret", "ProhibitedNode(%s).get_verify_cap() carries the read key" % fam[0], wit)
+        if x.get_write_uri() is not None or not x.is_readonly() or x.is_mutable():
+            ck.violation("derived-node-claims-write-authority", "ProhibitedNode(%s) claims authority" % fam[0], wit)
+        ck.case("wrapper-" + fam[0], key=("E", c_s))
+
+    # ------------------------------------------------------------------ (F) no-write links: histories of edits
+    from twisted.internet import defer
+    from twisted.python.failure import Failure
+
+    def fired(d):
+        out = []
+        d.addBoth(out.append)
+        if not out:
+            raise RuntimeError("directory operation did not complete synchronously on the in-memory backing file")
+        return out[0]
+
+    def memdir(cap_s, state):
+        """A real DirectoryNode (from a fresh NodeMaker = another client) whose backing mutable file keeps its
+        bytes in `state` instead of on a grid: only MutableFileNode.modify/download_best_version are replaced."""
+        dn = mk().create_from_cap(cap_s)
+        be = dn._node
+
+        def modify(modifier, backoffer=None):
+            def run():
+                new = modifier(state["data"], None, True)
+                if new is not None:
+                    state["data"] = new
+            return defer.execute(run)
+        be.modify = modify
+        be.download_best_version = lambda: defer.succeed(state["data"])
+        return dn
+
+    W_KINDS = ("SSK", "MDMF", "DIR2", "DIR2-MDMF")
+
+    def child_pool():
+        pool = {}
+        for kname in W_KINDS:
+            recs = [r_ for r_ in chains_m if r_[0][0] == kname]
+            pool[kname] = [(r_[2], r_[3], r_[1]) for r_ in recs]       # (write cap, read cap, writekey)
+        return pool
+
+    MD_VARIANTS = [None, {}, {"no-write": True}, {"no-write": False}, {"x": 1}, {"no-write": True, "x": 2}]
+
+    def apply_op(dn, op):
+        kind_ = op[0]
+        if kind_ == "set_node":
+            _k, name, (w, r, _wk), md, ov, as_ro = op
+            child = dn._nodemaker.create_from_cap(None, r) if as_ro else dn._nodemaker.create_from_cap(w)
+            return fired(dn.set_node(name, child, md, overwrite=ov))
+        if kind_ == "set_nodes":
+            _k, name, (w, r, _wk), md, ov, as_ro = op
+            child = dn._nodemaker.create_from_cap(None, r) if as_ro else dn._nodemaker.create_from_cap(w)
+            return fired(dn.set_nodes({name: (child, md)}, overwrite=ov))
+        if kind_ == "set_uri":
+            _k, name, (w, r, _wk), md, ov, as_ro = op
+            return fired(dn.set_uri(name, None if as_ro else w, r, metadata=md, overwrite=ov))
+        if kind_ == "set_children":
+            _k, name, (w, r, _wk), md, ov, as_ro = op
+            entry = (None if as_ro else w, r) if md is None else (None if as_ro else w, r, md)
+            return fired(dn.set_children({name: entry}, overwrite=ov))
+        if kind_ == "set_metadata_for":
+            _k, name, md = op
+            return fired(dn.set_metadata_for(name, md))
+        if kind_ == "delete":
+            return fired(dn.delete(op[1]))
+        raise AssertionError(op)
+
+    def describe(op):
+        if op[0] in ("set_node", "set_nodes", "set_uri", "set_children"):
+            return "%s(%s, %s, metadata=%r, overwrite=%r)" % (op[0], op[1], "read cap" if op[5] else show(op[2][0].split(b":")[1]) + " write cap",
+                                                              op[3], op[4] if isinstance(op[4], bool) else "ONLY_FILES")
+        return "%s(%s)" % (op[0], ", ".join(repr(x) for x in op[1:]))
+
+    def history(parent_fam, ops, tag):
+        dwk, dfp = rsecret(rng, 16), rsecret(rng, 32)
+        dw_s = M.fmt(M.BY_NAME[parent_fam[0]], (dwk, dfp))
+        dr_s = M.fmt(M.BY_NAME[parent_fam[1]], (M.ssk_readkey(dwk), dfp))
+        state = {"data": b""}
+        editor = memdir(dw_s, state)
+        done = []
+        targets = {}      # name -> writekey of the last child put there (for the leak search)
+        for op in ops:
+            res = apply_op(editor, op)
+            done.append(describe(op) + (" -> refused: " + res.type.__name__ if isinstance(res, Failure) else ""))
+            if isinstance(res, Failure):
+                ck.hit("dir-op-refused")
+                if not res.check(Exception) or res.type.__name__ not in (
+                        "ExistingChildError", "NoSuchChildError", "MustBeDeepImmutableError", "MustBeReadonlyError",
+                        "MustNotBeUnknownRWError", "ChildOfWrongTypeError", "KeyError"):
+                    ck.violation("derivation-raises", "%s raised %s: %s" % (describe(op), res.type.__name__, res.getErrorMessage()[:120]),
+                                 {"history": done})
+            elif op[0] in ("set_node", "set_nodes", "set_uri", "set_children"):
+                targets[op[1]] = op[2][2]
+            elif op[0] == "delete":
+                targets.pop(op[1], None)
+            # --- the invariant, seen by two other clients after EVERY step
+            listing_w = fired(memdir(dw_s, state).list())
+            listing_r = fired(memdir(dr_s, state).list())
+            wit = {"parent": parent_fam[0], "history": list(done)}
+            if isinstance(listing_w, Failure) or isinstance(listing_r, Failure):
+                f = listing_w if isinstance(listing_w, Failure) else listing_r
+                ck.violation("derivation-raises", "listing failed: %s" % f.getErrorMessage()[:160], wit)
+                return
+            for name, (child, md) in listing_w.items():
+                ck.mon("no-write-link-invariant")
+                if md.get("no-write", False):
+                    ck.hit("no-write-link")
+                    wu = write_uri_of(child)
+                    ro = flag(child, "is_unknown", False) or flag(child, "is_readonly", True)
+                    if wu is not None or not ro:
+                        ck.violation("no-write-link-holds-write-cap",
+                                     "link %r has metadata no-write=true yet yields %s with get_write_uri()=%r is_readonly()=%r after: %s"
+                                     % (name, type(child).__name__, show(wu), flag(child, "is_readonly", None), "; ".join(done)),
+                                     dict(wit, link=name, write_uri=show(wu)))
+                    ckey = targets.get(name)
+                    if ckey and any(leaks(ckey, t) for t in (child.get_uri(), child.get_readonly_uri()) if t):
+                        ck.violation("no-write-link-holds-write-cap", "no-write link %r carries the child's writekey" % name,
+                                     dict(wit, link=name))
+            for name, (child, md) in listing_r.items():
+                ck.mon("dir-reread")
+                if write_uri_of(child) is not None or not (flag(child, "is_unknown", False) or flag(child, "is_readonly", True)):
+                    ck.violation("readonly-dir-yields-writeable-child", "after %s the read-only view of link %r is writeable"
+                                 % ("; ".join(done), name), dict(wit, link=name))
+                ckey = targets.get(name)
+                if ckey and any(leaks(ckey, t) for t in (child.get_uri(), child.get_readonly_uri()) if t):
+                    ck.violation("derived-cap-leaks-secret", "read-only view of link %r carries the child's writekey" % name,
+                                 dict(wit, link=name))
+        ck.case("no-write-history-" + tag, key=("F", parent_fam[0], tuple(done)),
+                sample={"parent": parent_fam[0], "history": done})
+
+    def run_histories():
+        from allmydata.dirnode import ONLY_FILES
+        pool = child_pool()
+        parents = (MUTABLE_FAMILIES[2], MUTABLE_FAMILIES[3])
+        n = 0
+        # directed: a no-write link is created, then its target is replaced
+        for parent_fam in parents:
+            for ckind in W_KINDS:
+                first, second = pool[ckind][0], pool[ckind][1]
+                for md1 in ({"no-write": True}, {"no-write": True, "x": 1}):
+                    for op2 in ("set_node", "set_uri", "set_children", "set_nodes"):
+                        for md2 in MD_VARIANTS:
+                            for ov in (True, False, ONLY_FILES):
+                                n += 1
+                                if not ck.mine(n) and n > 40:
+                                    continue
+                                if ck.tier == "quick" and n > 40 and (n * 2654435761 + ck.seed) % 3:
+                                    continue
+                                if md2 is None and ov is True:
+                                    ck.hit("no-write-link-retargeted-without-metadata")
+                                ops = [("set_node", "link", first, md1, True, False), (op2, "link", second, md2, ov, False)]
+                                guarded("no-write history", {"parent": parent_fam[0]}, history, parent_fam, ops, "directed")
+                # no-write added afterwards, then retargeted
+                first, second = pool[ckind][2], pool[ckind][3]
+                for op2 in ("set_node", "set_uri", "set_children"):
+                    ops = [("set_uri", "link", first, None, True, False), ("set_metadata_for", "link", {"no-write": True}),
+                           (op2, "link", second, None, True, False), ("set_metadata_for", "link", {"y": 1}),
+                           (op2, "link", first, {"no-write": True}, True, False), (op2, "link", second, None, True, False)]
+                    guarded("no-write history", {"parent": parent_fam[0]}, history, parent_fam, ops, "directed")
+        # random histories over two names
+        nrand = 60 if ck.tier == "quick" else 600
+        for i in range(nrand):
+            if ck.out_of_time():
+                break
+            ops = []
+            for _ in range(rng.randint(3, 8)):
+                name = rng.choice(["a", "b"])
+                r = rng.random()
+                if r < .15:
+                    ops.append(("set_metadata_for", name, rng.choice([m for m in MD_VARIANTS if m is not None])))
+                elif r < .22:
+                    ops.append(("delete", name))
+                else:
+                    ops.append((rng.choice(["set_node", "set_uri", "set_children", "set_nodes"]), name,
+                                rng.choice(pool[rng.choice(W_KINDS)]), rng.choice(MD_VARIANTS),
+                                rng.choice([True, True, False, ONLY_FILES]), rng.random() < .2))
+            guarded("no-write history", {}, history, rng.choice(parents), ops, "random")
+
+    # ---- run (E), (D), (F)
+    import atexit
+    import os
+    import shutil
+    import tempfile
+    from allmydata.blacklist import Blacklist
+    tmpd = tempfile.mkdtemp(prefix="vf-")
+    atexit.register(shutil.rmtree, tmpd, True)
+    with open(os.path.join(tmpd, "access.blacklist"), "wb") as f:
+        for rec in chains_m:
+            f.write(M.b32enc(rec[5]) + b" off-limits\n")
+        for rec in chains_c:
+            f.write(M.b32enc(rec[4]) + b" off-limits\n")
+    nm_black = NodeMaker(None, None, None, None, None, {"k": 3, "n": 10}, None, None,
+                         blacklist=Blacklist(os.path.join(tmpd, "access.blacklist")))
+    for rec in chains_m:
+        guarded("ProhibitedNode chain (%s)" % rec[0][0], {"family": rec[0][0]}, wrapper_mutable, rec)
+    for rec in chains_c:
+        guarded("ProhibitedNode chain (%s)" % rec[0][0], {"family": rec[0][0]}, wrapper_chk, rec)
+    guarded("no-write histories", {}, run_histories)
+
     nD = 8 if ck.tier == "quick" else 60
     for rep in range(nD):
         idx += 1
@@ -712,7 +989,10 @@ def run(ck):
         for dfam in (MUTABLE_FAMILIES[2], MUTABLE_FAMILIES[3]):
             guarded("directory pack/unpack (%s)" % dfam[0], {"family": dfam[0]}, dir_part, rep, dfam)
 
+    shutil.rmtree(tmpd, ignore_errors=True)
     ck.exhaustive = False
+    ck.require_monitor("wrapper-chain", "no-write-link-invariant")
+    ck.require_reach("prohibited-node", "prohibited-child-packed", "no-write-link", "no-write-link-retargeted-without-metadata")
     ck.require_monitor("derivation-chain", "node-chain", "derived-cap-usable", "secret-search", "authority-flags", "truth-table-cap",
                        "truth-table-node", "truth-table-consistent-cell", "unknown-node-oracle", "strip-prefix-reread",
                        "dir-reread")
